@@ -32,7 +32,12 @@ func respace(t *rapid.T, s string) string {
 			inStr = !inStr
 		}
 		if r == ' ' && !inStr {
-			sb.WriteString(rapid.SampledFrom([]string{" ", " ", " ", "  ", "\n", "\t", " \n "}).Draw(t, "space"))
+			// (any white space separates tokens: the plain blank most of the time, otherwise any of the forms C14 uses)
+			if rapid.IntRange(0, 2).Draw(t, "space_kind") == 0 {
+				sb.WriteString(rapid.SampledFrom(layoutSpaces).Draw(t, "space_uni"))
+			} else {
+				sb.WriteString(rapid.SampledFrom([]string{" ", " ", " ", "  ", "\n", "\t", " \n ", "\v", "\f", "\r\n"}).Draw(t, "space"))
+			}
 			continue
 		}
 		sb.WriteRune(r)
